@@ -1,7 +1,7 @@
 """C11 — block-list invariants survive any sequence of bundle mutations (K-ops channel, debug+release).
 
 Case line:  OPS <clock_ms> <bundle> ; op ; op ...      with op one of
-    SORT | ADD <C type num flags crc data> | SETPAYLOAD x<hex> | SETPB <C ...> | SETCRC <0|1|2> | UPD <eid> <residence>
+    SORT | ADD <C type num flags crc data> | SETPAYLOAD x<hex> | SETPB <C ...> | SETCRC <0..255> | UPD <eid> <residence>
 Both sides print the whole bundle after every operation and `FINAL <VALID|INVALID n> PL <payload> RT <T|F>`.
 The oracle is stateless (it re-parses the case line) and evaluates the invariant of Model/OpSeq.v (`Inv`) on the
 implementation's bundle after EVERY step of an in-domain line (valid builder start state, admissible arguments)."""
@@ -10,33 +10,35 @@ import genb
 from vlib import rnd_u64, U64, xhex
 from props.codec_common import CODEC_TRUSTED
 
-THEOREMS = ["C11_invariant", "C11_start", "C11_builder_build", "C11_std_bundle", "C11_step", "C11_inv_reading"]
+THEOREMS = ["C11_invariant", "C11_start", "C11_builder_build", "C11_std_bundle", "C11_step", "C11_inv_reading",
+            "C11_roundtrip_unknown_crc", "C11_wf_conservative"]
 RELEASE = True
 OFFSET = 946684800000
 RULE = ("OPS <clock> <builder bundle> ; [SORT ;] op ...: start bundles = payload-only, new_std_payload_bundle shape (hop count 2 + payload 1) and "
         "BundleBuilder inputs with 0-5 extension blocks of mixed types (previous node, bundle age, hop count, unknown) with distinct numbers >= 2 in "
         "any order (SORT first = what build() does), named/anonymous source, administrative record, creation time 0 with age block, every CRC "
-        "state; operations = every sequence of operation kinds {ADD type 6/7/10/192/1, SETPAYLOAD, SETPB, SETCRC 0/1/2, UPD} up to length 3 (thorough: 4) "
+        "state incl. unknown CRC types; operations = every sequence of operation kinds {ADD type 6/7/10/192/1, SETPAYLOAD, SETPB, SETCRC 0/1/2 and the unknown "
+        "types 3/4/200/255 (stored as CrcValue::Unknown: no CRC field on the wire), UPD} up to length 3 (thorough: 4) "
         "with boundary arguments (requested numbers 0/1/2/666/2^64-1, empty and non-empty payloads, residence 0/1/2^64/2^128-1, hop counts at the "
         "limit) plus random sequences of length <= 8; the oracle checks Inv (unique non-zero strictly descending numbers, single payload block "
         "numbered 1 and last, singleton types at most once, valid by an independent Python rule list, well-formed) on the implementation's bundle "
-        "after every step, the payload read back == the payload most recently set, FINAL VALID and RT T; debug and release builds; "
+        "after every step, the payload read back == the payload most recently set, every block carries the CRC type last set, FINAL VALID and RT T; debug and release builds; "
         "non-trivial = distinct in-domain line")
 TRUSTED_BASE = CODEC_TRUSTED + ["tools/props/c11.py: Python transcription of Inv / the validation rules / admissibility (oracle)"]
 ASSUMPTIONS = ["start state = builder bundle accepted by validate and inside the C01 domain (wf_bundle: block data variant matches block type; "
                "validate alone accepts CanonicalData::Unknown under a known type, which does not round-trip)",
                "admissible arguments (Model/OpSeq.v op_ok): type-consistent blocks, reserved block-flag mask not hit, no status-report flag when "
-               "the bundle is an administrative record or anonymous, SETCRC code <= 2, valid EIDs, clock not before 2000-01-01"]
+               "the bundle is an administrative record or anonymous, SETCRC code any u8, valid EIDs, clock not before 2000-01-01"]
 
 MAXN = U64 - 1
-KINDS = ["A6", "A7", "A10", "A192", "A1", "SP", "SPB", "C0", "C1", "C2", "U"]
+KINDS = ["A6", "A7", "A10", "A192", "A1", "SP", "SPB", "C0", "C1", "C2", "C3", "C4", "C200", "C255", "U"]
 REQ_NUMS = [0, 1, 2, 666, MAXN]
 EIDS = [("DTN", 1, b"//n1/a"), ("IPN", 2, 23, 0), ("NONE", 1, 0), ("DTN", 1, "//kö/~x".encode()), ("IPN", 2, MAXN, MAXN)]
 NAMED = [e for e in EIDS if e[0] != "NONE"]
 PAYLOADS = [b"", b"p", b"ABC", bytes(24), b"\xff" * 3]
 RESIDENCE = [0, 1, U64, 5, 2 ** 128 - 1, 3600000]
 UNKNOWN_TYPES = [192, 2, 11, 12, 255, 65536, MAXN]
-CRCS = [("N",), ("E16",), ("E32",), ("V16", b"\x12\x34"), ("V32", b"\x00\x00\x00\x00")]
+CRCS = [("N",), ("E16",), ("E32",), ("V16", b"\x12\x34"), ("V32", b"\x00\x00\x00\x00"), ("U", 3), ("U", 200)]
 
 
 # ------------------------------------------------------------------ the property, in Python -------------------
@@ -87,7 +89,9 @@ def data_wf(t, d):
 
 
 def crc_wf(c):
-    return c[0] in ("N", "E16", "E32") or (c[0] == "V16" and len(c[1]) == 2) or (c[0] == "V32" and len(c[1]) == 4)
+    """known type with a value of the right length (or none yet), or an unknown type code 3..255 (no CRC field)"""
+    return (c[0] in ("N", "E16", "E32") or (c[0] == "V16" and len(c[1]) == 2) or (c[0] == "V32" and len(c[1]) == 4)
+            or (c[0] == "U" and 3 <= c[1] < 256))
 
 
 def block_wf(c):
@@ -180,7 +184,7 @@ def op_ok(strict, clock, o):
     if k == "SETPB":
         return block_ok(strict, o[1]) and o[1]["type"] == 1
     if k == "SETCRC":
-        return o[1] <= 2
+        return 0 <= o[1] < 256
     if k == "UPD":
         return eid_valid(o[1]) and eid_wf(o[1]) and clock >= OFFSET
     return False
@@ -406,6 +410,10 @@ def corpus():
     std = dict(p=dict(P0, flags=0x20004, rpt=P0["src"]), cs=[_c(10, 2, ("HOP", 32, 0)), pay])
     out.append(mk_line(OFFSET + 2000, std, [("ADD", _c(10, 666, ("HOP", 16, 0))), ("ADD", _c(1, 0, ("DATA", b"xyz"))), ("ADD", _c(7, 0, ("AGE", 0))),
                                             ("SETPB", _c(1, 1, ("DATA", b"new"))), ("SETPAYLOAD", b"newer"), ("SETCRC", 2), ("UPD", EIDS[0], 10)]))
+    # unknown CRC types: stored as CrcValue::Unknown, five-element blocks without a CRC field, still decodable
+    out.append(mk_line(OFFSET + 2000, std, [("SETCRC", 200)]))
+    out.append(mk_line(OFFSET + 2000, std, [("SETCRC", 3), ("ADD", _c(7, 9, ("AGE", 5))), ("SETPAYLOAD", b"u"), ("UPD", EIDS[1], 1)]))
+    out.append(mk_line(OFFSET + 2000, std, [("SETCRC", 255), ("SETCRC", 1), ("ADD", _c(192, 0, ("UNK", b""), crc=("U", 4)))]))
     # builder input in arbitrary order, payload first
     out.append(mk_line(OFFSET + 2000, dict(p=dict(P0), cs=[pay, _c(7, 2, ("AGE", 0)), _c(10, 4, ("HOP", 32, 0)), _c(6, 3, ("PREV", EIDS[2]))]),
                        [("SORT",), ("ADD", unk), ("UPD", EIDS[1], U64)]))
@@ -472,6 +480,8 @@ def oracle(line, out, mode):
             return "after step %d (%s): %s" % (i + 1, o[0], why)
         if b["p"] != dict(b0["p"], crc=b["p"]["crc"]):
             return "after step %d (%s): primary block fields changed" % (i + 1, o[0])
+        if o[0] == "SETCRC" and any(genb.crc_type(x["crc"]) != o[1] for x in [b["p"]] + b["cs"]):
+            return "after step %d (SETCRC %d): CRC types are %s" % (i + 1, o[1], [genb.crc_type(x["crc"]) for x in [b["p"]] + b["cs"]])
         got = payload_of(b)
         if got != expect:
             return "after step %d (%s): payload read back %r, most recently set %r" % (i + 1, o[0], got, expect)
